@@ -178,6 +178,7 @@ fn kvn(words: &[&str], key: &str, default: u64) -> u64 {
 struct Pair {
     eps: [Endpoint; 2], // 0 = client, 1 = server
     conns: [Connection; 2],
+    cc: ClientConfig,
 }
 
 async fn establish(server_t: TransportConfig, client_t: TransportConfig) -> Result<Pair, String> {
@@ -185,7 +186,7 @@ async fn establish(server_t: TransportConfig, client_t: TransportConfig) -> Resu
     let mut server = Endpoint::server("127.0.0.1:0", sc).await.map_err(|e| format!("bind: {e}"))?;
     let mut client = Endpoint::client("127.0.0.1:0").await.map_err(|e| format!("bind: {e}"))?;
     server.default_client_config = Some(cc.clone());
-    client.default_client_config = Some(cc);
+    client.default_client_config = Some(cc.clone());
     let addr = server.local_addr().unwrap();
     let connecting = client.connect(addr, "localhost", None).map_err(|e| format!("connect: {e}"))?;
     let sconn = async {
@@ -195,7 +196,7 @@ async fn establish(server_t: TransportConfig, client_t: TransportConfig) -> Resu
     let (c, s) = futures_util::join!(timeout(Duration::from_secs(10), connecting), timeout(Duration::from_secs(10), sconn));
     let c = c.map_err(|_| "connect timeout")?.map_err(|e| format!("connect: {e}"))?;
     let s = s.map_err(|_| "accept timeout")??;
-    Ok(Pair { eps: [client, server], conns: [c, s] })
+    Ok(Pair { eps: [client, server], conns: [c, s], cc })
 }
 
 fn retire(eps: Vec<Endpoint>) {
@@ -293,7 +294,9 @@ struct ReadOutcome {
     contract: Option<String>,
 }
 
-async fn read_stream(r: &mut RecvStream, mode: &str, pre: &str, slow: usize) -> Result<ReadOutcome, String> {
+async fn read_stream(r: RecvStream, mode: &str, pre: &str, slow: usize, limit: usize) -> Result<ReadOutcome, String> {
+    use compio_buf::{IntoInner, bytes::BufMut};
+    let mut r = r;
     let parts: Vec<&str> = mode.split(':').collect();
     let p = parts.get(1).and_then(|x| x.parse::<usize>().ok()).unwrap_or(1000).max(1);
     let mut out = ReadOutcome { data: vec![], eos: false, post_eos: false, contract: None };
@@ -344,6 +347,10 @@ async fn read_stream(r: &mut RecvStream, mode: &str, pre: &str, slow: usize) -> 
     }
     macro_rules! pace {
         () => {
+            if out.data.len() > limit {
+                // a stream that keeps growing (duplicated data): give up instead of eating memory
+                return Err(format!("overrun: {} bytes and no end of stream", out.data.len()));
+            }
             reads += 1;
             if slow > 0 && reads % slow == 0 {
                 sleep(Duration::from_millis(1)).await;
@@ -417,6 +424,69 @@ async fn read_stream(r: &mut RecvStream, mode: &str, pre: &str, slow: usize) -> 
             out.data.extend_from_slice(&buf);
             out.eos = true;
         }
+        // the `io-compat` wrappers: `CompatRecvStream::{read, read_exact}` and futures' `AsyncRead`
+        "cread" | "cexact" | "fread" | "fend" => {
+            let mut c = r.into_compat();
+            match parts[0] {
+                "cread" => loop {
+                    let mut v: Vec<u8> = Vec::with_capacity(p);
+                    match c.read((&mut v).limit(p)).await.map_err(|e| read_err(&e))? {
+                        None => {
+                            out.eos = true;
+                            break;
+                        }
+                        Some(n) => {
+                            if n == 0 || n > p || v.len() != n {
+                                out.contract = Some(format!("compat read returned {n} (len {}) with limit {p}", v.len()));
+                            }
+                            out.data.extend_from_slice(&v);
+                        }
+                    }
+                    pace!();
+                },
+                "cexact" => loop {
+                    let mut v: Vec<u8> = Vec::with_capacity(p);
+                    match c.read_exact((&mut v).limit(p)).await {
+                        Ok(()) => {
+                            if v.len() != p {
+                                out.contract = Some(format!("read_exact({p}) filled {}", v.len()));
+                            }
+                            out.data.extend_from_slice(&v);
+                        }
+                        Err(compio_quic::ReadExactError::FinishedEarly(rem)) => {
+                            if v.len() + rem != p {
+                                out.contract = Some(format!("read_exact({p}): {} bytes and {rem} missing", v.len()));
+                            }
+                            out.data.extend_from_slice(&v);
+                            out.eos = true;
+                            break;
+                        }
+                        Err(compio_quic::ReadExactError::ReadError(e)) => return Err(read_err(&e)),
+                    }
+                    pace!();
+                },
+                "fread" => loop {
+                    let mut v = vec![0u8; p];
+                    let n = futures_util::AsyncReadExt::read(&mut c, &mut v[..]).await.map_err(|e| format!("fread:{e}"))?;
+                    if n == 0 {
+                        out.eos = true;
+                        break;
+                    }
+                    if n > p {
+                        out.contract = Some(format!("futures read returned {n} into {p} bytes"));
+                    }
+                    out.data.extend_from_slice(&v[..n.min(p)]);
+                    pace!();
+                },
+                _ => {
+                    let mut v = vec![];
+                    futures_util::AsyncReadExt::read_to_end(&mut c, &mut v).await.map_err(|e| format!("fend:{e}"))?;
+                    out.data.extend_from_slice(&v);
+                    out.eos = true;
+                }
+            }
+            r = c.into_inner();
+        }
         other => return Err(format!("bad read mode {other}")),
     }
     // end-of-stream is sticky
@@ -440,8 +510,8 @@ struct TCtx {
     live: Rc<Cell<usize>>,
 }
 
-async fn reader_task(ctx: Rc<TCtx>, line: usize, slot: usize, mut r: RecvStream, spec: StreamSpec) {
-    let res = read_stream(&mut r, &spec.r, &spec.pre, spec.slow).await;
+async fn reader_task(ctx: Rc<TCtx>, line: usize, slot: usize, r: RecvStream, spec: StreamSpec) {
+    let res = read_stream(r, &spec.r, &spec.pre, spec.slow, spec.len + 200_000).await;
     let text = match res {
         Ok(o) => {
             let want = payload(spec.seed, spec.len);
@@ -474,13 +544,49 @@ async fn reader_task(ctx: Rc<TCtx>, line: usize, slot: usize, mut r: RecvStream,
     ctx.results.borrow_mut()[line][slot] = Some(text);
     ctx.live.set(ctx.live.get() - 1);
     ctx.notify.notify();
-    drop(r);
 }
 
-async fn writer_half(mut s: SendStream, spec: StreamSpec) -> Result<(), String> {
+async fn writer_half(s: SendStream, spec: StreamSpec) -> Result<(), String> {
+    use compio_buf::IntoInner;
     let data = payload(spec.seed, spec.len);
-    write_stream(&mut s, &data, &spec.w).await?;
-    s.finish().map_err(|_| "finish: closed stream".to_string())?;
+    let parts: Vec<&str> = spec.w.split(':').collect();
+    let c = parts.get(1).and_then(|x| x.parse::<usize>().ok()).unwrap_or(1000).max(1);
+    let mut s = s;
+    let mut finished = false;
+    match parts[0] {
+        // the `io-compat` wrappers: `CompatSendStream::{write, write_all}` and futures' `AsyncWrite`
+        "cwrite" | "call" | "fall" => {
+            let mut cs = s.into_compat();
+            for piece in data.chunks(c) {
+                match parts[0] {
+                    "cwrite" => {
+                        let mut off = 0;
+                        while off < piece.len() {
+                            let n = cs.write(&piece[off..]).await.map_err(|e| write_err(&e))?;
+                            if n == 0 || n > piece.len() - off {
+                                return Err(format!("compat write returned {n} for {} bytes", piece.len() - off));
+                            }
+                            off += n;
+                        }
+                    }
+                    "call" => cs.write_all(piece).await.map_err(|e| write_err(&e))?,
+                    _ => {
+                        futures_util::AsyncWriteExt::write_all(&mut cs, piece).await.map_err(|e| format!("fwrite:{e}"))?;
+                        futures_util::AsyncWriteExt::flush(&mut cs).await.map_err(|e| format!("fflush:{e}"))?;
+                    }
+                }
+            }
+            if parts[0] == "fall" {
+                futures_util::AsyncWriteExt::close(&mut cs).await.map_err(|e| format!("fclose:{e}"))?;
+                finished = true;
+            }
+            s = cs.into_inner();
+        }
+        _ => write_stream(&mut s, &data, &spec.w).await?,
+    }
+    if !finished {
+        s.finish().map_err(|_| "finish: closed stream".to_string())?;
+    }
     match s.stopped().await {
         Ok(None) => Ok(()),
         Ok(Some(c)) => Err(format!("stopped({c})")),
@@ -521,7 +627,7 @@ async fn run_transfer(lines: &[String], ex: &mut Exec) -> Vec<String> {
         }
     };
     out[0] = "ok".into();
-    let Pair { eps, conns } = pair;
+    let Pair { eps, conns, .. } = pair;
     // --- parse activities
     let mut specs: Vec<Option<(String, usize, StreamSpec, Option<StreamSpec>)>> = vec![None; n];
     let mut dgrams: Vec<(usize, usize, usize, usize, u64, bool)> = vec![]; // line, from side, count, size, seed, wait
@@ -871,7 +977,7 @@ async fn run_close_case(lines: &[String], ex: &mut Exec) -> Vec<String> {
         ];
     } else {
         match establish(server_t, client_t).await {
-            Ok(Pair { eps, conns }) => {
+            Ok(Pair { eps, conns, .. }) => {
                 let [ce, se] = eps;
                 let [cc, sc] = conns;
                 sides = vec![
@@ -1563,9 +1669,11 @@ async fn run_endpoint_case(lines: &[String], ex: &mut Exec) -> Vec<String> {
     let grave: Graveyard = Rc::new(RefCell::new(vec![]));
     let mut others: Vec<Endpoint> = vec![];
     let mut held: Vec<Connection> = vec![];
+    let client_cfg: ClientConfig;
     let server: Endpoint = match kind {
         "zero" => {
-            let (sc, _) = configs(TransportConfig::default(), TransportConfig::default());
+            let (sc, cc) = configs(TransportConfig::default(), TransportConfig::default());
+            client_cfg = cc;
             match Endpoint::server("127.0.0.1:0", sc).await {
                 Ok(e) => e,
                 Err(e) => {
@@ -1575,7 +1683,8 @@ async fn run_endpoint_case(lines: &[String], ex: &mut Exec) -> Vec<String> {
             }
         }
         "live" | "drained" => match establish(TransportConfig::default(), TransportConfig::default()).await {
-            Ok(Pair { eps, conns }) => {
+            Ok(Pair { eps, conns, cc: ccfg }) => {
+                client_cfg = ccfg;
                 let [ce, se] = eps;
                 let [cc, sc] = conns;
                 if kind == "live" {
@@ -1613,6 +1722,8 @@ async fn run_endpoint_case(lines: &[String], ex: &mut Exec) -> Vec<String> {
     ex.tag(format!("E:endpoint:{kind}"));
     let addr = server.local_addr().unwrap();
     let mut server = Some(server);
+    let mut taken: std::collections::VecDeque<compio_quic::Incoming> = Default::default();
+    let mut closed_ep = false;
     struct EPend {
         line: usize,
         result: Rc<RefCell<Option<String>>>,
@@ -1666,7 +1777,7 @@ async fn run_endpoint_case(lines: &[String], ex: &mut Exec) -> Vec<String> {
                     out[i] = "bad-op".into();
                     continue;
                 }
-                let (_, cc) = configs(TransportConfig::default(), TransportConfig::default());
+                let cc = client_cfg.clone();
                 let client = match Endpoint::client("127.0.0.1:0").await {
                     Ok(c) => c,
                     Err(e) => {
@@ -1708,12 +1819,125 @@ async fn run_endpoint_case(lines: &[String], ex: &mut Exec) -> Vec<String> {
                 }
                 out[i] = format!("done=[{}]", done.join(","));
             }
+            Some("take") => {
+                // a connection attempt arrives and `wait_incoming()` hands the `Incoming` to the caller, who decides
+                // LATER (possibly after `Endpoint::close`) what to do with it
+                let Some(ep) = server.clone() else {
+                    out[i] = "bad-op".into();
+                    continue;
+                };
+                let client = match Endpoint::client("127.0.0.1:0").await {
+                    Ok(c) => c,
+                    Err(e) => {
+                        out[i] = format!("error:{e}");
+                        continue;
+                    }
+                };
+                match client.connect(addr, "localhost", Some(client_cfg.clone())) {
+                    Ok(connecting) => grave.borrow_mut().push(Box::new(connecting)),
+                    Err(e) => {
+                        out[i] = format!("error:{e}");
+                        continue;
+                    }
+                }
+                others.push(client);
+                match timeout(Duration::from_secs(3), ep.wait_incoming()).await {
+                    Ok(Some(inc)) => {
+                        taken.push_back(inc);
+                        out[i] = "ok".into();
+                    }
+                    Ok(None) => out[i] = "error:closed".into(),
+                    Err(_) => out[i] = "error:no incoming".into(),
+                }
+            }
+            Some(what @ ("refuse" | "retry" | "ignore")) => {
+                let Some(inc) = taken.pop_front() else {
+                    out[i] = "bad-op".into();
+                    continue;
+                };
+                match what {
+                    "refuse" => inc.refuse(),
+                    "ignore" => inc.ignore(),
+                    _ => {
+                        if let Err(e) = inc.retry() {
+                            e.into_incoming().refuse();
+                        }
+                    }
+                }
+                out[i] = "ok".into();
+            }
+            Some("accept") => {
+                let Some(inc) = taken.pop_front() else {
+                    out[i] = "bad-op".into();
+                    continue;
+                };
+                let connecting = match inc.accept() {
+                    Ok(c) => c,
+                    Err(e) => {
+                        out[i] = format!("accept=err:{e}");
+                        continue;
+                    }
+                };
+                match timeout(Duration::from_secs(3), connecting).await {
+                    Err(_) => {
+                        out[i] = "accept=timeout".into();
+                        fails.push(("C16:stranded-future".into(), format!("kind=connecting endpoint={kind} closed={closed_ep}: accepted connection neither established nor failed within 3000 ms")));
+                    }
+                    Ok(Err(e)) => out[i] = format!("accept=err:{}", conn_err(&e)),
+                    Ok(Ok(conn)) => {
+                        // a future on the accepted connection: `Endpoint::close` (before or after) must end it
+                        let seen = Rc::new(Cell::new(false));
+                        let result: Rc<RefCell<Option<String>>> = Rc::new(RefCell::new(None));
+                        let (seen2, result2, notify2, grave2) = (seen.clone(), result.clone(), notify.clone(), grave.clone());
+                        let conn2 = conn.clone();
+                        let handle = compio_runtime::spawn(async move {
+                            let res = match probe(conn2.accept_bi(), &seen2, &notify2).await {
+                                Ok(x) => {
+                                    grave2.borrow_mut().push(Box::new(x));
+                                    "ok:stream".to_string()
+                                }
+                                Err(e) => format!("err:{}", conn_err(&e)),
+                            };
+                            drop(conn2);
+                            *result2.borrow_mut() = Some(res);
+                            notify2.notify();
+                        });
+                        grave.borrow_mut().push(Box::new(conn));
+                        let mut p = EPend { line: i, result, handle: Some(handle), reported: false };
+                        if closed_ep {
+                            // born on a closed endpoint: it must already be (or at once become) closed
+                            let r2 = p.result.clone();
+                            notify.wait_until(|| r2.borrow().is_some(), CLOSE_WATCHDOG).await;
+                            p.reported = true;
+                            match p.result.borrow().clone() {
+                                Some(r) => out[i] = format!("accept=ok conn={r}"),
+                                None => {
+                                    out[i] = "accept=ok conn=stranded".into();
+                                    fails.push((
+                                        "C16:stranded-future".into(),
+                                        format!(
+                                            "kind=accept_bi endpoint={kind} after=close:endpoint: connection accepted after Endpoint::close is alive, its accept_bi() still pending after {} ms",
+                                            CLOSE_WATCHDOG.as_millis()
+                                        ),
+                                    ));
+                                }
+                            }
+                        } else {
+                            let (s2, r2) = (seen.clone(), p.result.clone());
+                            notify.wait_until(|| s2.get() || r2.borrow().is_some(), Duration::from_millis(700)).await;
+                            out[i] = "accept=ok".into();
+                        }
+                        pends.push(p);
+                    }
+                }
+            }
             Some("close") => {
                 let Some(ep) = &server else {
                     out[i] = "bad-op".into();
                     continue;
                 };
                 ep.close(3u32.into(), b"bye");
+                closed_ep = true;
                 {
                     let pr = &pends;
                     notify.wait_until(|| pr.iter().all(|p| p.result.borrow().is_some()), CLOSE_WATCHDOG).await;
@@ -1752,7 +1976,16 @@ async fn run_endpoint_case(lines: &[String], ex: &mut Exec) -> Vec<String> {
                 // `shutdown` waits for every clone of the endpoint and every connection to be dropped
                 held.clear();
                 grave.borrow_mut().clear();
-                match timeout(Duration::from_millis(3000), ep.shutdown()).await {
+                for inc in taken.drain(..) {
+                    inc.ignore();
+                }
+                let ms = std::env::var("C16_SHUTDOWN_MS").ok().and_then(|x| x.parse().ok()).unwrap_or(3000u64);
+                let t0 = std::time::Instant::now();
+                let res = timeout(Duration::from_millis(ms), ep.shutdown()).await;
+                if std::env::var("C16_TIMING").is_ok() {
+                    eprintln!("shutdown took {:.0} ms", t0.elapsed().as_secs_f64() * 1e3);
+                }
+                match res {
                     Ok(_) => out[i] = "ok".into(),
                     Err(_) => {
                         out[i] = "timeout".into();
@@ -1773,6 +2006,9 @@ async fn run_endpoint_case(lines: &[String], ex: &mut Exec) -> Vec<String> {
     }
     held.clear();
     grave.borrow_mut().clear();
+    for inc in taken.drain(..) {
+        inc.ignore();
+    }
     if let Some(ep) = server.take() {
         others.push(ep);
     }
@@ -1835,17 +2071,27 @@ fn gen_stream_params(rng: &mut Rng, big: bool) -> (usize, String, String, usize)
         } as usize;
         c.max(min_chunk)
     };
-    let w = match rng.below(4) {
+    let w = match rng.below(7) {
         0 => format!("write:{}", chunk(rng)),
         1 => format!("all:{}", chunk(rng)),
         2 => format!("chunks:{}:{}", chunk(rng), rng.range(1, 9)),
-        _ => format!("wchunks:{}:{}", chunk(rng), rng.range(1, 9)),
+        3 => format!("wchunks:{}:{}", chunk(rng), rng.range(1, 9)),
+        4 => format!("cwrite:{}", chunk(rng)),
+        5 => format!("call:{}", chunk(rng)),
+        _ => format!("fall:{}", chunk(rng)),
     };
-    let r = match rng.below(8) {
+    let unbounded_ok = !w.starts_with("call");
+    let r = match rng.below(12) {
         0..=2 => format!("read:{}", chunk(rng)),
         3 | 4 => format!("chunk:{}", chunk(rng)),
         5 => format!("chunks:{}", rng.range(1, 33)),
-        _ => "end".to_string(),
+        6 => format!("cread:{}", chunk(rng)),
+        7 => format!("fread:{}", chunk(rng)),
+        8 => format!("cexact:{}", chunk(rng)),
+        // (a reader that only returns at end of stream cannot notice a stream that never ends)
+        9 if unbounded_ok => "fend".to_string(),
+        _ if unbounded_ok => "end".to_string(),
+        _ => format!("cread:{}", chunk(rng)),
     };
     let slow = if rng.chance(1, 4) { rng.range(1, 4) as usize * (len / 4000 + 1) } else { 0 };
     (len, w, r, slow)
@@ -1854,6 +2100,9 @@ fn gen_stream_params(rng: &mut Rng, big: bool) -> (usize, String, String, usize)
 /// a slow reader sleeps 1 ms every `slow` reads: at most ~12 sleeps per stream
 fn bound_slow(slow: usize, len: usize, r: &str) -> usize {
     if slow == 0 {
+        return 0;
+    }
+    if r == "fend" || r == "end" {
         return 0;
     }
     let per_read = r.split(':').nth(1).and_then(|x| x.parse::<usize>().ok()).unwrap_or(1000);
@@ -2203,6 +2452,34 @@ fn gen_close(rng: &mut Rng, idx: usize) -> Case {
 
 fn gen_endpoint(rng: &mut Rng, idx: usize, kind: &str) -> Case {
     let mut lines = vec![format!("E ep {kind}")];
+    if rng.chance(2, 5) {
+        // `Incoming`s handed out before the close and dealt with before / after it
+        let ntake = rng.range(1, 3);
+        for _ in 0..ntake {
+            lines.push("E take".into());
+        }
+        for _ in 0..rng.below(3) {
+            lines.push("E pend".into());
+        }
+        let mut left = ntake;
+        if left > 1 && rng.chance(1, 2) {
+            lines.push(format!("E {}", rng.pick(&["accept", "accept", "refuse", "ignore"])));
+            left -= 1;
+        }
+        lines.push("E close".into());
+        let mut late_accept = false;
+        for _ in 0..left {
+            let what = *rng.pick(&["accept", "accept", "accept", "refuse", "retry", "ignore"]);
+            late_accept |= what == "accept";
+            lines.push(format!("E {what}"));
+        }
+        // (a connection born closed never measured an RTT: it drains for 3 x the initial PTO, about 3 s, and
+        // `shutdown` waits for that)
+        if !late_accept && rng.chance(1, 2) {
+            lines.push("E shutdown".into());
+        }
+        return Case { name: format!("e{idx}-{kind}-late"), lines };
+    }
     for _ in 0..rng.range(1, 3) {
         lines.push("E pend".into());
     }
@@ -2315,6 +2592,30 @@ fn dedicated() -> Vec<Case> {
                 "C pend s recv_dgram",
                 "C act c dgrams 3",
                 "C close c conn",
+            ],
+        ),
+        // an `Incoming` handed out BEFORE `Endpoint::close` and accepted / refused / retried / ignored AFTER it: the
+        // connection is born closed
+        c("ep-accept-after-close", &["E ep zero", "E take", "E pend", "E close", "E accept"]),
+        c(
+            "ep-accept-before-and-after-close",
+            &["E ep live", "E take", "E take", "E pend", "E accept", "E close", "E accept"],
+        ),
+        c(
+            "ep-late-refuse-retry-ignore",
+            &["E ep zero", "E take", "E take", "E take", "E close", "E refuse", "E retry", "E ignore", "E shutdown"],
+        ),
+        // the io-compat wrappers with writes larger than the stream window (they block mid-buffer)
+        c(
+            "compat-wrappers-small-window",
+            &[
+                "T conn srw=1024 rw=10000000 sw=10000000 uni=100 bi=100",
+                "T uni c2s len=20000 seed=21 w=call:20000 r=cread:700 pre=none slow=0",
+                "T uni c2s len=9000 seed=22 w=call:3000 r=fread:512 pre=none slow=2",
+                "T uni s2c len=12000 seed=23 w=fall:5000 r=cexact:1000 pre=none slow=0",
+                "T uni s2c len=7000 seed=24 w=cwrite:7000 r=fend pre=read:10:100 slow=0",
+                "T bi c2s len=15000 seed=25 w=call:15000 r=cread:4096 pre=none slow=0 elen=15000 eseed=26 ew=fall:15000 er=cexact:333 epre=none eslow=0",
+                "T end",
             ],
         ),
         // blocked datagram senders at a synchronous close
